@@ -458,6 +458,32 @@ def eval_direct(case, acc=None):
             viol.append(("C12/not-monotone-in-amplitude/%s/%s" % (fam, gc), mini(cont=[g]),
                          {"cycles": g, "R_goal": R, "diagram": d, "pylife": [lo, mid, hi]}))
 
+    # -- clause 2/6 for "any gap-free Haigh diagram": the same five-segment diagram handed to HaighDiagram.from_dict with its
+    #    segments LISTED in every rotation of the Haigh order (one of them is "ascending in R") must give the plain function's
+    #    result - the listing order of a diagram carries no meaning
+    if case.get("ifaces") and cyc and d[0] != "goodman":
+        MS = _ms()
+        M0, M1, M2_, M3, M4, R12, R23 = d[1:]
+        seg = {(1.0, np.inf): M4, (-np.inf, 0.0): M0, (0.0, R12): M1, (R12, R23): M2_, (R23, 1.0): M3}
+        order = list(seg)
+        frame = pd.DataFrame({"range": [2.0 * c[0] for c in cyc], "mean": [c[1] for c in cyc]})
+        for rot in range(1, 5):
+            keys = order[rot:] + order[:rot]
+            got = _guard("listing-order", lambda: np.asarray(MS.HaighDiagram.from_dict({k: seg[k] for k in keys}).transform(frame, R)
+                                                             .load_collective.amplitude, dtype=float), viol, mini(cyc=cyc, ifaces=True))
+            if acc is not None:
+                acc.evaluations += 1
+                acc.cases += 1
+            if got is None:
+                continue
+            bad = [i for i in range(len(cyc)) if exact_cyc[i] is not None and not _isclose(got[i], F_cyc[i])]
+            if bad:
+                i = bad[0]
+                viol.append(("C12/listing-order/%s/%s" % (_cycleclass(rd, *cyc[i]), gc), mini(cyc=[cyc[i]], ifaces=True),
+                             {"cycle(S_a,S_m)": cyc[i], "R_goal": R, "diagram": d, "segments_listed_as": [list(k) for k in keys],
+                              "from_dict_listing": float(got[i]), "plain_function": float(F_cyc[i])}))
+                break
+
     # -- clause 6: interfaces agree (all compared with the batch result of the plain function)
     if case.get("singles") and cyc:
         for (a, m), want, ex in zip(cyc, F_cyc, exact_cyc):
@@ -771,6 +797,32 @@ def eval_matrix(case, acc=None):
     if v is not None:
         key = "C12/matrix/%s" % v[0] if v[0] == "cycles-not-conserved" else "C12/interface/matrix-accessor/%s" % v[0]
         viol.append((key, case, v[1]))
+    elif nodes is None:
+        # history on ONE kept signal object: transform, re-label the classes of the same Series in place (a change of
+        # unit: all class limits doubled), transform again - it must answer like a fresh object on the re-labelled Series
+        MS = _ms()
+        prm = pd.Series({"M": M[0], "M2": M[1]})
+
+        def scaled(idx):
+            levels = [pd.IntervalIndex.from_arrays(2.0 * idx.get_level_values(n).left, 2.0 * idx.get_level_values(n).right)
+                      for n in idx.names]
+            return pd.MultiIndex.from_arrays(levels, names=idx.names)
+
+        def run():
+            s2 = s.copy()
+            kept = MS.MeanstressTransformMatrix(s2)
+            kept.fkm_goodman(prm, R)
+            s2.index = scaled(s2.index)
+            return kept.fkm_goodman(prm, R).to_pandas()
+        got = _guard("matrix-kept-object", run, viol, case)
+        if acc is not None:
+            acc.evaluations += 2
+        if got is not None:
+            # the transformation is homogeneous: doubled classes -> doubled transformed ranges (the result's own binning is
+            # taken as it comes; only where the cycles land is judged, exactly as for a fresh object)
+            v2 = _judge_matrix_result(got, 2.0 * (2.0 * want), allc, None)
+            if v2 is not None:
+                viol.append(("C12/interface/matrix-accessor/kept-object-after-relabel/%s" % v2[0], case, v2[1]))
     return viol
 
 
